@@ -4,9 +4,10 @@ Model of `include/tapkee/neighbors/vptree.hpp` (class `VantagePointTree`), core 
 
 * `items[lower, upper)` is a list; `(upper+lower)/2 - lower = (upper-lower)/2`, so the median position
   depends on the length of the range only.
-* the vantage point is `items[lower + (int)(uniform_random() * (upper-lower-1))]`; `uniform_random()` is an
-  oracle stream (`draws`, numerators of multiples of 2^-20, consumed cyclically — the harness installs the
-  same stream through `CUSTOM_UNIFORM_RANDOM_FUNCTION`).
+* the vantage point is `items[lower + (int)(next_vantage_fraction() * (upper-lower-1))]`; the fraction comes
+  from the tree's own generator (or `uniform_random()` under `CUSTOM_UNIFORM_RANDOM_FUNCTION`) and is an
+  oracle stream here (`draws`, numerators of multiples of 2^-20, consumed cyclically — the harness installs the
+  same stream through `CUSTOM_UNIFORM_RANDOM_FUNCTION`).  `Built` admits *any* in-range vantage index.
 * `std::nth_element` is any function/outcome satisfying `Knn.IsNthElement` (`Built` is the relation
   "the constructor can produce this tree"; `build` is the executable instance).
 * `tau = std::numeric_limits<double>::max()` is `none` (every distance is below it, `d - tau <= thr` and
@@ -58,7 +59,7 @@ inductive Built [Zero K] (cb : Cb α K) : List α → Tree α K → Prop where
   | nil : Built cb [] .nil
   | leaf (x : α) : Built cb [x] (.node x 0 .nil .nil)
   | node (items : List α) (i : Nat) (vp : α) (tail out : List α) (m : α) (l r : Tree α K) :
-      2 ≤ items.length → i < items.length - 1 →
+      2 ≤ items.length → i < items.length →
       swap0 items i = vp :: tail →
       IsNthElement (cb.lt vp) (items.length / 2 - 1) tail out →
       out[items.length / 2 - 1]? = some m →
